@@ -356,6 +356,8 @@ func runOci(mode string, seed int64, tier string, sc *Script) map[string]any {
 					r = 0
 				case "tag":
 					r, forcedRef, forcedAnn = 30, f.ref, f.ann
+				case "untag":
+					r, forcedRef = 45, f.ref
 				case "delete":
 					r = 74
 				case "gc":
@@ -399,6 +401,9 @@ func runOci(mode string, seed int64, tier string, sc *Script) map[string]any {
 				}
 			case r < 52:
 				ref := randRef()
+				if forcedRef != "" {
+					ref = forcedRef
+				}
 				before := c.runQuery(c.store, []string{"resolve", "ref=" + ref})
 				err := c.store.Untag(ctx, c.refString(ref))
 				sc.Op(ociErr(err), "o untag ref=%s", ref)
@@ -810,6 +815,19 @@ func ociCorpus() []ociCorpusCase {
 		lk := u.AddBlob(ocispec.MediaTypeImageLayer, []byte("corpus-lk"))
 		k := u.AddImage(KOCIManifest, cfg.ID, []int{lk.ID}, -1, "", map[string]string{"k": "keep"})
 		ops := append(pushAllOps(u), forcedOp{op: "tag", n: g.ID, ref: "t0"}, forcedOp{op: "tag", n: k.ID, ref: "t1"}, forcedOp{op: "delete", n: g.ID})
+		out = append(out, ociCorpusCase{u, ops})
+	}
+	{
+		// a referrer under two names loses one of them, then its subject is deleted: it still
+		// has a name, so the cascade keeps it (and everything it needs)
+		u := NewUniverse()
+		cfg := u.AddBlob(ocispec.MediaTypeImageConfig, []byte(`{"corpus":"untag-one-of-two"}`))
+		layer := u.AddBlob(ocispec.MediaTypeImageLayer, []byte("corpus-u2-layer"))
+		img := u.AddImage(KOCIManifest, cfg.ID, []int{layer.ID}, -1, "", map[string]string{"k": "img"})
+		sb := u.AddBlob("application/vnd.verif.sig", []byte("corpus-u2-sig"))
+		sig := u.AddImage(KOCIManifest, cfg.ID, []int{sb.ID}, img.ID, "application/vnd.verif.sig", map[string]string{"k": "sig"})
+		ops := append(pushAllOps(u), forcedOp{op: "tag", n: img.ID, ref: "t0"}, forcedOp{op: "tag", n: sig.ID, ref: "t1"}, forcedOp{op: "tag", n: sig.ID, ref: "t2"},
+			forcedOp{op: "untag", ref: "t1"}, forcedOp{op: "delete", n: img.ID})
 		out = append(out, ociCorpusCase{u, ops})
 	}
 	{
